@@ -197,6 +197,10 @@ pub fn lane_pages(ctx: &mut Ctx) {
 }
 
 fn page_chain(h: &mut Hist, ctx: &mut Ctx) {
+    page_chain_with(h, ctx, false)
+}
+
+fn page_chain_with(h: &mut Hist, ctx: &mut Ctx, real_limit: bool) {
     let net = h.net();
     // an address with as many UTXOs as possible at the best tip
     let best_tip = *h.model.best_chains()[0].last().unwrap();
@@ -214,8 +218,12 @@ fn page_chain(h: &mut Hist, ctx: &mut Ctx) {
     if best_n < 2 {
         return;
     }
-    let limit = h.rng.range(1, (best_n as u64 - 1).min(7)) as usize;
-    let first = match world::get_utxos_limit(&a.text, net, &Filter::None, limit) {
+    let limit = if real_limit { 1000 } else { h.rng.range(1, (best_n as u64 - 1).min(7)) as usize };
+    if real_limit {
+        ctx.cov.count("c06_chains_with_the_real_1000_limit");
+        ctx.cov.max("max_utxos_of_one_address", best_n as u64);
+    }
+    let first = match if real_limit { world::get_utxos_query(&a.text, net, &Filter::None) } else { world::get_utxos_limit(&a.text, net, &Filter::None, limit) } {
         Out::Ok(Ok(r)) => r,
         other => {
             ctx.violation(format!("first page failed: {:?}", other), None, json!({"log": h.log}));
@@ -254,7 +262,11 @@ fn page_chain(h: &mut Hist, ctx: &mut Ctx) {
             }
         }
         let still = h.model.is_live(&t0);
-        let r = world::get_utxos_limit(&a.text, net, &Filter::Page(tok.to_vec()), limit);
+        let r = if real_limit {
+            world::get_utxos_query(&a.text, net, &Filter::Page(tok.to_vec()))
+        } else {
+            world::get_utxos_limit(&a.text, net, &Filter::Page(tok.to_vec()), limit)
+        };
         ctx.cov.count("c06_page_requests");
         match r {
             Out::Trap(m) => {
@@ -411,6 +423,69 @@ fn blob_fuzz(h: &mut Hist, ctx: &mut Ctx) {
                 if !obs.windows(2).all(|w| w[0].height >= w[1].height) {
                     ctx.violation("page for a forged token not in descending height order".into(), None, json!({"log": h.log}));
                 }
+            }
+        }
+    }
+}
+
+/// Addresses with 1001-3500 UTXOs spread over stable and unstable blocks, paged with the real limit.
+pub fn lane_bigpages(ctx: &mut Ctx) {
+    let max_cases = if ctx.tier == crate::cov::Tier::Quick { 8 } else { 100_000 };
+    for k in ctx.cases("bigpages", max_cases) {
+        if !ctx.time_left() {
+            break;
+        }
+        ctx.begin("bigpages", k);
+        let mut rng = Rng::derive(&[ctx.seed, fp_str("bigpages"), k]);
+        let mut cfg = cfg_for(&mut rng);
+        if cfg.path == Path::Heartbeat {
+            cfg.path = Path::Insert;
+        }
+        cfg.fanout_pct = 0;
+        cfg.threshold = rng.range(2, 4) as u32;
+        let mut h = Hist::new(cfg, rng);
+        let total = h.rng.range(1001, 3500) as usize;
+        let target = h.uni.addrs[h.rng.usize_below(h.uni.addrs.len())].clone();
+        // several blocks, each with a coinbase paying many outputs to the target
+        let blocks = h.rng.range(2, 6) as usize;
+        let mut left = total;
+        let mut ok = true;
+        for bi in 0..blocks {
+            let n = if bi + 1 == blocks { left } else { h.rng.range(1, (left as u64 - (blocks - bi - 1) as u64).max(1)) as usize };
+            left -= n;
+            let tip = *h.model.best_chains()[0].last().unwrap();
+            let height = h.model.blocks[&tip].height + 1;
+            h.uniq += 1;
+            let outs: Vec<(u64, Vec<u8>)> = (0..n).map(|i| (1000 + i as u64, target.script.clone())).collect();
+            let cb = gen::coinbase_tx(height, h.uniq, outs);
+            let time = h.model.blocks[&tip].time + 100;
+            let b = gen::make_block(h.net(), tip, time, vec![cb], h.cfg.path != Path::Push);
+            if h.deliver(b, 1, ctx).is_none() || !h.opportunity(ctx) {
+                ok = false;
+                break;
+            }
+            // ordinary blocks in between (spends of some of those outputs, forks)
+            for _ in 0..h.rng.range(0, 2) {
+                if !h.step(ctx) {
+                    ok = false;
+                    break;
+                }
+            }
+            if !ok {
+                break;
+            }
+        }
+        if ok {
+            if ctx.prop == "C01" {
+                crate::mon::check_c01(&mut h, ctx, None);
+            } else {
+                page_chain_with(&mut h, ctx, true);
+                page_chain_with(&mut h, ctx, true);
+            }
+        }
+        if let Some(d) = &h.desync {
+            if ctx.cov.violations.iter().all(|v| v.case != k || v.lane != "bigpages") {
+                ctx.inconclusive(format!("history abandoned: {}", d));
             }
         }
     }
